@@ -47,8 +47,9 @@ func (f *fragment) Stats() storage.Stats {
 func (f *fragment) Compaction() (bool, error) {
 	select {
 	case <-f.ctx.Done():
-		// fragment is closed or destroyed
-		return false, nil
+		// fragment is closed or destroyed: there is nothing left to compact. Reporting
+		// "not done" would make the caller retry for ever.
+		return true, nil
 	default:
 	}
 	return f.storage.Compaction()
